@@ -7,9 +7,10 @@ so an op carries a whole history:
                            one token per spawned handler (`pending` if it has not returned),
                            then `|`, the store-operation log, then `live:…`
 
-  ACT    = (init TICKET MODE) | (poll SECRET) | (uservisit SECRET)
-         | (approve ROLE SECRET c…) | (abort ROLE SECRET m) | (evict ROLE SECRET)
-  TICKET = (good n) | (bad n)
+  ACT    = (init SVC TICKET MODE) | (poll SVC SECRET) | (uservisit SVC SECRET)
+         | (approve SVC ROLE SECRET c…) | (abort SVC ROLE SECRET m) | (evict ROLE SECRET)
+  SVC    = 0 | 1                 (the tp.TP the request is addressed to; both share the store)
+  TICKET = (good n) | (bad n)    (good n is sealed under the key of service n % 2)
   MODE   = (immediate c…) | poll | user | (refuse status m) | none
   ROLE   = poll | user           (which endpoint / namespace the secret is presented to)
   SECRET = f<k>.poll | f<k>.user | x<n>     (k-th Insert's secrets, 1-based; never-issued)
@@ -59,13 +60,13 @@ def mode? : Sx → Option Mode
   | _ => none
 
 def action? (base : Nat) : Sx → Option Action
-  | .list [.atom "init", t, m] => do some (.init (← ticket? t) (← mode? m))
-  | .list [.atom "poll", s] => do some (.poll (← secret? base s))
-  | .list [.atom "uservisit", s] => do some (.userVisit (← secret? base s))
-  | .list (.atom "approve" :: r :: s :: cs) => do
-    some (.decide (← role? r) (← secret? base s) (.approve (← cs.mapM Sx.nat?)))
-  | .list [.atom "abort", r, s, m] => do
-    some (.decide (← role? r) (← secret? base s) (.abort (← m.nat?)))
+  | .list [.atom "init", v, t, m] => do some (.init (← v.nat?) (← ticket? t) (← mode? m))
+  | .list [.atom "poll", v, s] => do some (.poll (← v.nat?) (← secret? base s))
+  | .list [.atom "uservisit", v, s] => do some (.userVisit (← v.nat?) (← secret? base s))
+  | .list (.atom "approve" :: v :: r :: s :: cs) => do
+    some (.decide (← v.nat?) (← role? r) (← secret? base s) (.approve (← cs.mapM Sx.nat?)))
+  | .list [.atom "abort", v, r, s, m] => do
+    some (.decide (← v.nat?) (← role? r) (← secret? base s) (.abort (← m.nat?)))
   | .list [.atom "evict", r, s] => do some (.evict ⟨← role? r, ← secret? base s⟩)
   | _ => none
 
